@@ -26,7 +26,7 @@ RULE = ("trees of 1-6 files with pairwise distinct contents and csv-hostile name
 
 def run(oc, tier, seed, model_available, escalate):
     rng = random.Random(seed * 7368787 + 17)
-    n = 120 if tier == "quick" else 1500
+    n = 250 if tier == "quick" else 3000
     if escalate:
         n *= 3
     d = os.path.join(common.scratch(), "c17")
